@@ -479,6 +479,15 @@ fn bfs(variant: &str, cap: u64, walk_seed: u64, n_walks: u64, walk_len: u64, w: 
         h
     };
     let mut seen: HashMap<(u64, u64), u64> = HashMap::new();
+    // queued states keep only the alphabet part of the model (the filler entries never change;
+    // keeping thousands of full models of a multi-megabyte image exhausts the memory)
+    let small = |m: &BTreeMap<Vec<u8>, Vec<u8>>| -> BTreeMap<Vec<u8>, Vec<u8>> {
+        keys.iter().filter_map(|k| m.get(k).map(|v| (k.clone(), v.clone()))).collect()
+    };
+    let mut base_model = seed.model.clone();
+    for k in &keys {
+        base_model.remove(k);
+    }
     let mut queue: VecDeque<(Node, BTreeMap<Vec<u8>, Vec<u8>>)> = VecDeque::new();
     seen.insert(digest(&seed.files), model_digest(&seed.model));
     queue.push_back((
@@ -487,13 +496,15 @@ fn bfs(variant: &str, cap: u64, walk_seed: u64, n_walks: u64, walk_len: u64, w: 
             model_digest: model_digest(&seed.model),
             path: vec![],
         },
-        seed.model.clone(),
+        small(&seed.model),
     ));
     stats.states = 1;
     let dir = w.fresh_dir();
     let mut nt: Vec<u64> = Vec::new();
     let mut truncated = false;
-    while let Some((node, model)) = queue.pop_front() {
+    while let Some((node, model_small)) = queue.pop_front() {
+        let mut model = base_model.clone();
+        model.extend(model_small);
         let files = expand(&seed.files, &node.img);
         let before = decoder::decode(Kt::Bytes, &files[0], &files[1], &files[2]);
         let _ = node.model_digest;
@@ -555,7 +566,7 @@ fn bfs(variant: &str, cap: u64, walk_seed: u64, n_walks: u64, walk_len: u64, w: 
                                 model_digest: md,
                                 path,
                             },
-                            so.model,
+                            small(&so.model),
                         ));
                     } else {
                         truncated = true;
@@ -704,6 +715,8 @@ fn session_cfg(tier: Tier, index: u64) -> crate::gen::HistCfg {
         special_keys: false,
         default_table: false,
         big_table: None,
+        empty_mid: false,
+        empty_end: false,
     };
     rare_regions(&mut c, index);
     if c.prelude != Prelude::None {
